@@ -365,4 +365,10 @@ func init() {
 	register("C05", c05TieSuite)
 	register("C05", c05TraceSuite)
 	replayers["C05/tx-trace"] = c05ReplayFault
+	replayers["C05/tx-callbacks"] = func(r *Result, input json.RawMessage) {
+		r.Note("tx-callbacks replays are correspondence-only: rerun the suite")
+	}
+	replayers["C05/pipeline-order"] = func(r *Result, input json.RawMessage) {
+		r.Note("pipeline-order replays are correspondence-only: rerun the suite")
+	}
 }
